@@ -128,11 +128,21 @@ NewId == LET gs == {nodes[i].id : i \in {j \in 1..Len(nodes) : nodes[j].tag \in 
              cand == {g \o sfx : g \in gs, sfx \in {"_0", "_1", "_2"}} \ {nodes[i].id : i \in 1..Len(nodes)}
          IN IF cand # {} /\ MaybeN(77, 25) THEN PickN(78, cand) ELSE "n" \o ToString(Len(nodes) + 1)
 
+(* curved / shorthand path data: only for the structural foci (the rendering semantics of SvgSem is   *)
+(* defined on polygonal geometry, so these never enter a rendering check)                              *)
+CurvyPathCat == {
+  << <<"M",2,2>>, <<"Q",8,0,12,6>>, <<"T",4,12>>, <<"z">> >>,
+  << <<"M",1,8>>, <<"q",4,-8,8,0>>, <<"t",6,0>>, <<"L",8,14>>, <<"Z">> >>,
+  << <<"M",2,8>>, <<"C",2,2,10,2,10,8>>, <<"S",6,14,2,8>>, <<"z">> >>,
+  << <<"M",3,3>>, <<"c",2,-3,6,-3,8,0>>, <<"s",2,6,-2,8>>, <<"l",-6,0>>, <<"z">> >>,
+  << <<"M",2,6>>, <<"A",4,3,30,1,0,12,9>>, <<"L",3,13>>, <<"Z">> >>,
+  << <<"M",1,1>>, <<"H",9>>, <<"v",5>>, <<"a",3,3,0,0,1,-6,0>>, <<"z">> >> }
+
 Geom(tag) == CASE tag = "rect" -> PickN(129, RectCat)
                [] tag = "circle" -> PickN(130, CircleCat)
                [] tag = "ellipse" -> PickN(131, EllipseCat)
                [] tag \in {"polygon", "polyline"} -> PickN(132, PolyCat)
-               [] tag = "path" -> PickN(133, PathCat)
+               [] tag = "path" -> IF Focus = "mixed" /\ MaybeN(133 + 700, 40) THEN PickN(133 + 701, CurvyPathCat) ELSE PickN(133, PathCat)
                [] tag = "line" -> <<1, 2, 12, 9>>
                [] OTHER -> <<>>
 
